@@ -10,6 +10,8 @@ from engine.loader import AnalysisError
 ALLOWED_CONE_WRITES = {
     ('_DEFERRED_DISPATCH_BY_NAME', 'is_registered', 'pop'):
         'deferred->live promotion: a move whose result does not depend on when it happens (C15.d)',
+    ('_DEFERRED_DISPATCH_BY_NAME', 'register_pretty.<locals>.decorator', 'pop'):
+        'a direct registration drops an older pending registration by name for the same class (after publishing; C15.i)',
     ('pretty_dispatch', 'register_pretty.<locals>.decorator', 'register'):
         'promotion target / user registration: registers the printer the user supplied for that class',
     ('_DEFERRED_DISPATCH_BY_NAME', 'register_pretty.<locals>.decorator', 'setitem'):
@@ -197,21 +199,30 @@ def doc_object_stores(repo, rep, rule):
     return n
 
 
-def promotion_consistency(repo, rep, rule):
-    """the allow-listed deferred->live promotion is history independent only if it registers the
-    printer for exactly the class whose key was looked up (C15.d): reuse those rule instances"""
+_C15_CACHE = {}
+
+
+def promotion_consistency(repo, rep, rule, rules=('C15.d', 'C15.b', 'C15.c'), why='deferred promotion is no longer a history-independent move'):
+    """the allow-listed deferred->live promotion is history independent: in every interpreted registration history lookups
+    leave later dispatch unchanged (C15.b/c/d): reuse those rule instances"""
     from engine.report import Report
     from . import c15
-    sub = Report('C15', rep.tier, rep.seed, quiet=True, write=False)
-    c15.run(repo, sub)
+    key = (id(repo), rep.tier, rep.seed)
+    sub = _C15_CACHE.get(key)
+    if sub is None:
+        sub = Report('C15', rep.tier, rep.seed, quiet=True, write=False)
+        c15.run(repo, sub)
+        _C15_CACHE.clear()
+        _C15_CACHE[key] = sub
+        sub._repo = repo        # keep the id alive
     n = 0
     for i in sub.instances:
-        if i.rule in ('C15.d', 'C15.b') or i.construct.startswith('is_registered:promotion') or i.construct == 'is_registered:two-promotion-sites':
+        if i.rule in rules:
             n += 1
             if i.verdict == 'holds':
                 rep.ok(rule, i.construct, i.where, i.detail)
             elif i.verdict == 'VIOLATED':
-                rep.fail(rule, i.construct, i.where, 'deferred promotion is no longer a history-independent move: ' + i.detail)
+                rep.fail(rule, i.construct, i.where, why + ': ' + i.detail)
             else:
                 rep.undecided(rule, i.construct, i.where, i.detail)
     return n
